@@ -102,6 +102,9 @@ func (g *Gen) define(prefix, sort, term string) string {
 	if len(term) < 24 && !strings.Contains(term, "(") {
 		return term
 	}
+	if (strings.HasPrefix(term, "(band ") || strings.HasPrefix(term, "(bandnot ") || strings.HasPrefix(term, "(bor ")) && len(term) < 80 {
+		return term // kept inline so that nested masks can be rewritten
+	}
 	n := g.fresh(prefix)
 	g.emit("(define-fun " + n + " () " + sort + " " + term + ")")
 	return n
@@ -131,6 +134,38 @@ func (g *Gen) assert(st *State, kind, detail, goal, src string, pos token.Pos) {
 		o.Pos = fmt.Sprintf("%s:%d", p.Filename, p.Line)
 	}
 	g.obls = append(g.obls, o)
+}
+
+// assertExpr translates a contract clause at this point and asserts it. A clause that
+// cannot be evaluated here (it names a variable that is not in scope at this point any
+// more) is an obligation that fails by name, not a machinery error.
+func (g *Gen) assertExpr(st *State, env *Env, kind, detail string, e *E, src string, pos token.Pos) {
+	var t string
+	var msg string
+	func() {
+		defer func() {
+			if r := recover(); r != nil {
+				if se, ok := r.(specErr); ok {
+					msg = se.msg
+					return
+				}
+				panic(r)
+			}
+		}()
+		t = env.tr(e).S
+	}()
+	if msg != "" {
+		g.kindOrd[kind+"/"+detail]++
+		name := fmt.Sprintf("%s/%s/%s#%d", g.key, kind, detail, g.kindOrd[kind+"/"+detail])
+		o := &Obl{Name: name, Fn: g.key, Kind: kind, Src: src, Verdict: "unevaluable", Output: "the clause cannot be evaluated at this point: " + msg, gen: g}
+		if pos.IsValid() {
+			p := g.prog.Fset.Position(pos)
+			o.Pos = fmt.Sprintf("%s:%d", p.Filename, p.Line)
+		}
+		g.obls = append(g.obls, o)
+		return
+	}
+	g.assert(st, kind, detail, t, src, pos)
 }
 
 func (g *Gen) heapGet(st *State, comp string) string {
@@ -211,7 +246,9 @@ func (g *Gen) wf(v string, t types.Type, allocT string) string {
 			implies(eq(slRef(v), "0"), eq(slCap(v), "0")))
 	case *types.Pointer, *types.Map:
 		return and("(<= 0 "+v+")", "(<= "+v+" "+allocT+")")
-	case *types.Interface, *types.Signature, *types.Chan:
+	case *types.Interface:
+		return "true" // boxed constants are negative ids, allocated boxes positive, nil is 0
+	case *types.Signature, *types.Chan:
 		return "(<= 0 " + v + ")"
 	}
 	return "true"
